@@ -29,7 +29,12 @@ type W struct {
 	distinct map[string]struct{}
 	Samples  []string
 	Extra    map[string]interface{}
+	bytes    int64
 }
+
+// MaxBytes caps what one harness run may write (ops + impl): a change to the code under test that makes a harness loop
+// must not fill the disk.  Exceeding it ends the process with exit status 97.
+var MaxBytes int64 = 3 << 30
 
 func New(dir string) *W {
 	if err := os.MkdirAll(dir, 0o755); err != nil {
@@ -66,6 +71,13 @@ func (w *W) Op(op, impl string) {
 	w.ops.WriteByte('\n')
 	w.impl.WriteString(impl)
 	w.impl.WriteByte('\n')
+	w.bytes += int64(len(op) + len(impl) + 2)
+	if w.bytes > MaxBytes {
+		w.ops.Flush()
+		w.impl.Flush()
+		fmt.Fprintf(os.Stderr, "harness output exceeded %d bytes after %d operations (runaway case?): giving up\n", MaxBytes, w.NOps)
+		os.Exit(97)
+	}
 }
 
 // Count adds to the distribution histogram.
